@@ -98,6 +98,22 @@ check("C12",
       "come from Session.tla; MC_Engine checks InvInputsOnce/InvCausal on all interleavings.",
       ENG, "TLA+ engine model + trace validation with causality clauses (TLC)", "DESIGN.md §4 C12")
 
+REL = ("Trusted: TLC/SANY 1.8.0, Json module, reduction mod p=46199, exact float arithmetic on dyadic instances (scales "
+       "and shifts are powers of two there). Bounds: d<=5 (direct sums <=6), <=3 parameters, total order <=4.")
+check("C13",
+      "Relations.tla states, for each way the property relates two inputs (scaling a perturbation, merging parameters, "
+      "permuting parameters, substituting lambda->lambda^2, adding a vanishing perturbation), the relation between the "
+      "two output sets; pairs of real runs (Hermitian mode; sympy exact and numpy/sparse dyadic; inputs as order-tuple "
+      "dicts, lists, symbolic monomial keys whose NAMES induce a permutation, sympy matrices with symbols, BlockSeries) "
+      "are logged and TLC checks the relation for H_tilde, U and U-dagger at every multi-order. The parameter order of a "
+      "run is read from the returned series' dimension_names.",
+      REL, "TLA+ two-run relations evaluated by TLC on logged outputs of paired real runs", "DESIGN.md §4 C13")
+check("C15",
+      "Relations.tla: block relabelling and basis-state permutation and rotation inside a degenerate level (all "
+      "B = T A T^-1 with T computed by the harness from the construction), complex conjugation, shift of H_0 (only "
+      "H_tilde at order zero moves), positive scaling, direct sum of decoupled problems. Pairs/triples of real runs over "
+      "all fully_diagonalize forms; TLC checks H_tilde, U, U-dagger at every multi-order.",
+      REL, "TLA+ two-run relations evaluated by TLC on logged outputs of paired real runs", "DESIGN.md §4 C15")
 check("C16",
       "Sylvester.tla states each solver's equation over GF(p^2): the diagonal solver entrywise with 'zero where the "
       "energies coincide'; the direct solver for the right-implicit (rows: V_a (E_a - h0) Pc = Y_a Pc, V Pc = V) and "
